@@ -37,6 +37,10 @@ func init() {
 }
 
 func runC18(c *an.Ctx) {
+	dnssvcWiring(c, "C18-R9", func(dst, src string) bool {
+		n := normName(dst) + " " + normName(src)
+		return strings.Contains(n, "pipeline") || strings.Contains(n, "idletimeout") || strings.Contains(n, "listenconfig")
+	}, 4)
 	// ---- C18-R9: builder wiring of the components this property rests on
 	c.Floor("C18-R9", 2)
 	builderWiring(c, "C18-R9", map[string][]string{
